@@ -278,6 +278,12 @@ func c06Package(fail func(string, string, ...interface{}) core.Outcome) core.Out
 		return dn.(*dst.Package)
 	}
 	pkg := build()
+	// import objects as a caller (or dst.NewPackage) puts them there: hand-made, without declaration
+	if pkg.Imports == nil {
+		pkg.Imports = map[string]*dst.Object{}
+	}
+	pkg.Imports["fmt"] = dst.NewObj(dst.Pkg, "fmt")
+	pkg.Imports["a.b/x"] = dst.NewObj(dst.Pkg, "x")
 	var c dst.Node
 	if p := guard(func() { c = dst.Clone(pkg) }); p != "" {
 		return fail("clone-panic:Package", "Clone(Package) panicked: %s", p)
@@ -410,6 +416,13 @@ func c06Check(cs c06Case) core.Outcome {
 			// the spacing of a declaration's signature node is not consulted by printing (the declaration's own is)
 			if fd, ok := m.(*dst.FuncDecl); ok && fd.Type != nil {
 				fd.Type.Decs.Before, fd.Type.Decs.After = dst.None, dst.None
+			}
+		}
+		// ... and every identifier is linked to a hand-made object (dst.NewObj: no Decl, Data or Type), which the
+		// clone must drop like any other object link
+		for _, m := range allNodes(n) {
+			if id, ok := m.(*dst.Ident); ok {
+				id.Obj = dst.NewObj(dst.Var, id.Name)
 			}
 		}
 		var c2 dst.Node
